@@ -20,7 +20,16 @@ def run(tier, seed, repo, focus=None):
                     if d.get("slow"):
                         n = 60
                     scns.append({"det": name, "variant": v, "seed": seed + s, "n": n, "k": k})
+    # NNDVI: close alpha pairs on slowly drifting histories (the distance creeps through the critical values)
+    for s in range(4 if quick else 20):
+        for k in range(1, len(drivers.THRESHOLDS["NNDVI"])):
+            scns.append({"det": "NNDVI", "variant": 0, "seed": seed + s, "n": 10, "k": k, "slow": True})
     drivers.run_scenarios(res, "threshold", scns, known)
+    scns = []
+    for s in range(3 if quick else 12):
+        for (strict, loose, st) in ((0.015, 0.02, 500), (0.019, 0.02, 500), (0.04, 0.06, 200), (0.01, 0.05, 300)):
+            scns.append({"seed": seed + s + 3, "strict": strict, "loose": loose, "sampling_times": st, "k": 30, "rows": 100, "slope": 0.04, "n": 12})
+    drivers.run_scenarios(res, "nndvi_alpha", scns, known)
     scns = []
     for name, pairs in drivers.WARNINGS.items():
         d = C.DETECTORS[name]
